@@ -178,6 +178,15 @@ def run(chk, repo):
         loopB, loopA = main_if.body, main_if.orelse
     else:
         raise AnalysisError("blocks: main test '%s' not recognised" % t)
+    # the source may be a container, not an iterator: it is iterated by one construct only (a second iter(seq) /
+    # islice(seq, ..) / for .. in seq would start from its beginning again), unless it was turned into an iterator first
+    made_iter = any(isinstance(st_, ast.Assign) and unparse(st_.targets[0]) == "seq" and unparse(st_.value) in ("iter(seq)", "Stream(seq)")
+                    for st_ in pro)
+    for label_, stmts_ in (("hop<=size", loopA), ("hop>size", loopB)):
+        uses_ = [n_ for st_ in stmts_ for n_ in ast.walk(st_) if isinstance(n_, ast.Name) and n_.id == "seq" and isinstance(n_.ctx, ast.Load)]
+        chk.decide(len(uses_) == 1 or made_iter, "R2.3", W("blocks"), "[%s] the source is iterated by one construct (%d use(s) of seq)" % (label_, len(uses_)),
+                   why="a list / tuple / range source is read again from its start by the second consumer: items are "
+                       "repeated instead of skipped", node=uses_[1] if len(uses_) > 1 else bl)
     results = {}
     for label, stmts, has_skip in (("hop<=size", loopA, False), ("hop>size", loopB, True)):
         fors = [s for s in stmts if isinstance(s, ast.For)]
